@@ -137,7 +137,11 @@ impl Scenario for UnsolScenario {
                     }
                     script.push(op);
                 }
-                75..=84 => script.push(read_op(gen_event_read(rng, &cfg.points))),
+                75..=84 => {
+                    // (now and then a READ that names nothing: it is a READ all the same, deferred and answered like any other)
+                    let headers = if rng.chance(1, 10) { Vec::new() } else { gen_event_read(rng, &cfg.points) };
+                    script.push(read_op(headers));
+                }
                 85..=92 => script.push(gen_executed_request(rng, &cfg.points, Dest::Own)),
                 93..=94 => script.push(Op::Repeat),
                 95..=96 => {
